@@ -45,6 +45,11 @@ def trees():
     for p in sorted(glob.glob(os.path.join(VERIF, "selftest", "mutants", "*", "*.patch"))):
         prop = os.path.basename(os.path.dirname(p))
         out["mut-%s-%s" % (prop, os.path.basename(p)[:-6])] = ("mutant", p, [prop])
+    # every repair made to /repo, undone again: the defect must be reported by its property's check
+    ridx = os.path.join(VERIF, "selftest", "reverts", "index.json")
+    if os.path.exists(ridx):
+        for c, info in json.load(open(ridx)).items():
+            out["revert-" + c] = ("mutant", os.path.join(VERIF, "selftest", "reverts", c + ".patch"), [info["property"]])
     for m in sorted(glob.glob(os.path.join(VERIF, "seeded", "*", "meta.json"))):
         j = json.load(open(m))
         if j.get("not_reported"):
